@@ -206,6 +206,8 @@ def run(R):
                     cb = tonic.body(clo[1]['def'])
                     ch = cb.calls(pat='watch::Receiver', name='changed')
                     okc = len(ch) == 1 and ch[0][1]['dest']['l'] == 0
+                elif clo[0] == 'fnitem' and re.search(r'watch::Receiver::<.*>::changed$|watch::Receiver<.*>::changed$|watch::Receiver::changed$', str(clo[1])):
+                    okc = True   # `.map(watch::Receiver::changed)`: the method itself instead of |w| w.changed()
                 R.check(okc, 'C13.R4', 'signal=receiver.changed()', site(sc), 'the closure returns w.changed()')
         gs = sc.calls(name='graceful_shutdown')
         R.check(len(gs) == 2, 'C13.R4', 'graceful_shutdown-sites', site(sc), 'graceful_shutdown sites: %d (signal arm and max-connection-age arm)' % len(gs))
